@@ -13,6 +13,7 @@ EXPLANATION = ("Deductive: _mix_by_weight_pairs (1-3 components) and _mix_by_vol
                "zero-quantity dropping, density = total mass/total volume, ValueError for a missing density, operands unchanged; "
                "the percent parse actions (remainder to the last component, rejection above 100%). Component count is bounded "
                "at 3 (loops over the pair list are unrolled); quantities, compositions and densities are unbounded. "
+               "The absolute-amount parse actions (documented unit factors, mL via density, a counted group multiplies its recorded total, also on its own) and formula(text, name=/density=/natural_density=) (the result IS the parser's object, recorded amounts untouched). "
                "Bounded tasks: 'pairs' (random lists to 6 components) and 'strings' (unit spellings, nesting, repeated groups).")
 
 
